@@ -33,6 +33,16 @@
 //!   blk <info specs> <fmt specs> ns   a record with several INFO fields and FORMAT series
 //!                               (`kind~arg|kind~arg`, the micro kinds above; keys X0.. / Y0.. / GT):
 //!                               obs = the whole record as written and every field read back
+//!   hx  <kind> <ns> <hex>        hostile value bytes: a record is assembled by hand around arbitrary
+//!                               bytes standing where the typed value of an INFO field / the series of a
+//!                               FORMAT key stands (kind = one of the micro kinds, ns samples) and read
+//!                               with read_record_buf; obs = the value read back, `Err` or `Panic`
+//!                               (`Fail` for the Character/String kinds), compared with the model's
+//!                               decoder on the same bytes
+//!   hxr <info kinds> <fmt kinds> <ns> <hex>   a whole record (written by the real writer, then
+//!                               mutated: bytes replaced / inserted / deleted, tail cut, lengths
+//!                               re-fixed or not) read with read_record_buf under the header those
+//!                               kinds define; obs = every field of the RecordBuf, or `Fail`
 //! Implementation-only oracle:
 //!   rec profile seed            a generated header (+IDX assignments) and record, written as BCF,
 //!                               read back through read_record_buf and through the lazy bcf::Record,
@@ -1575,6 +1585,200 @@ fn generate(rng: &mut Rng, tier: &str, w: &mut CaseWriter) {
         w.push("blk", vec![e(is), e(fs), ns.to_string()]);
     }
 
+    // --- hostile value bytes for every value decoder (descriptors of every type code and length
+    // nibble, overflow lengths incl. nested / non-integer / negative ones, sentinels, short payloads)
+    {
+        const DKS: [&str; 17] = ["ii", "iv", "if", "ifv", "is", "isv", "ic", "icv", "fi", "fv", "ff", "ffv", "fs", "fsv", "fc", "fcv", "gt"];
+        // Character kinds: payload bytes stay ASCII (the model's characters are single bytes); the
+        // String kinds get arbitrary bytes, well-formed and malformed UTF-8 included
+        let stringy = |dk: &str| matches!(dk, "ic" | "icv" | "fc" | "fcv");
+        let texty = |dk: &str| matches!(dk, "is" | "isv" | "fs" | "fsv");
+        const UTF8: [&[u8]; 16] = [
+            &[0xc3, 0xa9], &[0xe2, 0x82, 0xac], &[0xf0, 0x9f, 0x98, 0x80], &[0xf4, 0x8f, 0xbf, 0xbf], &[0xed, 0x9f, 0xbf],
+            &[0xc0, 0x80], &[0xc1, 0xbf], &[0xed, 0xa0, 0x80], &[0xf4, 0x90, 0x80, 0x80], &[0xe0, 0x80, 0x80], &[0xf0, 0x8f, 0xbf, 0xbf],
+            &[0x80], &[0xc3], &[0xe2, 0x82], &[0xf5, 0x80, 0x80, 0x80], &[0xef, 0xbf, 0xbd],
+        ];
+        let mut push = |w: &mut CaseWriter, dk: &str, ns: usize, b: &[u8]| {
+            w.push("hx", vec![dk.to_string(), (if dk.starts_with('i') { 0 } else { ns }).to_string(), hex(b)]);
+        };
+        // nested overflow lengths and other fixed shapes, for every decoder
+        let fixed: [&[u8]; 22] = [
+            &[], &[0xf1], &[0xf1, 0xf1], &[0xf1, 0xf1, 0x11, 0x01, 0x05], &[0xf7, 0xf1, 0x11, 0x01, 0x41],
+            &[0xf1, 0xf2, 0x11, 0x01, 0x00, 0x05], &[0xf7, 0xf7, 0x11, 0x01, 0x41], &[0xf1, 0x11, 0x02, 0x05, 0x06],
+            &[0xf7, 0x11, 0x10, 0x41, 0x42], &[0xf1, 0x11, 0xff, 0x01], &[0xf1, 0x01], &[0xf1, 0x21, 0x01, 0x02, 0x03],
+            &[0xf1, 0x15, 0x00, 0x00, 0x80, 0x3f], &[0xf1, 0x17, 0x41], &[0xf1, 0x11, 0x80], &[0xf1, 0x12, 0x10, 0x00],
+            &[0x00], &[0x10], &[0x07], &[0x14, 0x01], &[0x1f, 0x01], &[0xff, 0xff, 0xff],
+        ];
+        for dk in DKS.iter() {
+            for f in fixed.iter() {
+                if stringy(dk) && f.iter().skip(1).any(|b| *b >= 0x80) && f[0] & 0x0f == 7 {
+                    continue;
+                }
+                push(w, dk, 2, f);
+            }
+        }
+        for _ in 0..(900 * mul) {
+            let dk = *rng.pick(&DKS);
+            let ns = rng.range(1, 3) as usize;
+            let ascii = stringy(dk);
+            let mut b: Vec<u8> = Vec::new();
+            if rng.chance(1, 5) {
+                let n = rng.range(0, 20);
+                for i in 0..n {
+                    let x = rng.next() as u8;
+                    b.push(if ascii && i > 0 { x & 0x7f } else { x });
+                }
+            } else {
+                // descriptor
+                let code: u8 = match rng.below(10) {
+                    0 => rng.below(16) as u8,
+                    1 => 0,
+                    _ => match dk {
+                        "gt" => 1,
+                        "ii" | "iv" | "fi" | "fv" => *rng.pick(&[1u8, 1, 2, 3]),
+                        "if" | "ifv" | "ff" | "ffv" => 5,
+                        _ => 7,
+                    },
+                };
+                let unit = match code { 2 => 2, 3 | 5 => 4, _ => 1 };
+                let len: usize = match rng.below(8) {
+                    0 => 0,
+                    1 => 15,
+                    2 => 16,
+                    _ => rng.range(1, 4) as usize,
+                };
+                if len < 15 && !rng.chance(1, 12) {
+                    b.push(((len as u8) << 4) | code);
+                } else {
+                    b.push(0xf0 | code);
+                    match rng.below(8) {
+                        0 => b.extend([0xf1, 0x11, len as u8]),           // nested overflow
+                        1 => b.extend([0x11, (len as u8) | 0x80]),          // negative / sentinel length
+                        2 => b.extend([0x12, len as u8, 0x00]),
+                        3 => b.extend([0x13, len as u8, 0x00, 0x00, 0x00]),
+                        4 => b.extend([0x15, 0x00, 0x00, 0x80, 0x3f]),     // a float as the length
+                        5 => b.extend([0x21, len as u8, 0x00]),            // a vector as the length
+                        _ => b.extend([0x11, len as u8]),
+                    }
+                }
+                // payload: the declared size for `ns` samples (INFO: 1), sometimes short or long
+                let mult = if dk.starts_with('i') { 1 } else { ns };
+                let mut size = len * unit * mult;
+                match rng.below(6) {
+                    0 => size = size.saturating_sub(rng.range(1, 3) as usize),
+                    1 => size += rng.range(1, 3) as usize,
+                    _ => {}
+                }
+                for _ in 0..size {
+                    let x = match rng.below(4) {
+                        0 => *rng.pick(&[0x80u8, 0x81, 0x82, 0x87, 0x88, 0x7f, 0x00, 0x01, 0xff]),
+                        1 => *rng.pick(&[b'.', b',', 0x00, b'a', b'b']),
+                        _ => rng.next() as u8,
+                    };
+                    b.push(if ascii { x & 0x7f } else { x });
+                }
+                // UTF-8 fragments inside the payload of the String kinds
+                if texty(dk) && rng.chance(1, 2) {
+                    let k = b.len().saturating_sub(size);
+                    let mut pay: Vec<u8> = Vec::new();
+                    while pay.len() < size {
+                        if rng.chance(1, 2) { pay.extend(*rng.pick(&UTF8)); } else { pay.push(*rng.pick(&[b'a', b',', b'.', 0x00, b'Z'])); }
+                    }
+                    // keep the declared size mostly (a fragment may be cut, which is a case too)
+                    if rng.chance(3, 4) { pay.truncate(size); }
+                    b.truncate(k);
+                    b.extend(pay);
+                }
+                // float sentinels
+                if code == 5 && b.len() >= 5 && rng.chance(1, 3) {
+                    let k = b.len() - 4;
+                    let pat = *rng.pick(&[0x7f80_0001u32, 0x7f80_0002, 0x7f80_0003, 0x7f80_0007]);
+                    b[k..].copy_from_slice(&pat.to_le_bytes());
+                }
+            }
+            push(w, dk, ns, &b);
+        }
+    }
+
+    // --- whole records on hostile bytes: a record written by the real writer, then mutated
+    for _ in 0..(500 * mul) {
+        let ninfo = rng.range(0, 3) as usize;
+        let nfmt = rng.range(0, 3) as usize;
+        let ns = if nfmt == 0 { *rng.pick(&[0usize, 2]) } else { rng.range(1, 3) as usize };
+        let fstr = |rng: &mut Rng| gen_float(rng, false).to_string();
+        let oj = |v: Vec<Option<String>>| v.into_iter().map(|x| x.unwrap_or_else(|| ".".into())).collect::<Vec<_>>().join(",");
+        let mut is: Vec<(String, String)> = Vec::new();
+        for _ in 0..ninfo {
+            let len = rng.range(1, 3) as usize;
+            is.push(match rng.below(7) {
+                0 => ("ii".into(), gen_int(rng, false).to_string()),
+                1 => ("iv".into(), fmt_opt_list(&gen_int_vec(rng, len + 1, 2, 2, false))),
+                2 => ("if".into(), fstr(rng)),
+                3 => ("ifv".into(), oj((0..len + 1).map(|_| Some(fstr(rng))).collect())),
+                4 => ("is".into(), hex(gen_word(rng, 1, 8).as_bytes())),
+                5 => ("isv".into(), oj((0..len + 1).map(|_| Some(hex(gen_word(rng, 1, 4).as_bytes()))).collect())),
+                _ => ("ig".into(), "x".into()),
+            });
+        }
+        let mut fs: Vec<(String, String)> = Vec::new();
+        let gt_first = nfmt > 0 && rng.chance(1, 2);
+        for j in 0..nfmt {
+            let kind = if j == 0 && gt_first { 0 } else { rng.range(1, 6) };
+            let per: Vec<String> = (0..ns)
+                .map(|_| {
+                    let len = rng.range(1, 3) as usize;
+                    match kind {
+                        0 => { let p = rng.range(1, 2) as usize; fmt_gt(&gen_gt(rng, p, true)) }
+                        1 => { let wd = rng.below(3); gen_int_in_width(rng, wd).to_string() }
+                        2 => fmt_opt_list(&gen_int_vec(rng, len + 1, 2, 2, false)),
+                        3 => fstr(rng),
+                        4 => oj((0..len + 1).map(|_| Some(fstr(rng))).collect()),
+                        5 => hex(gen_word(rng, 1, 6).as_bytes()),
+                        _ => oj((0..len + 1).map(|_| Some(hex(gen_word(rng, 1, 4).as_bytes()))).collect()),
+                    }
+                })
+                .collect();
+            fs.push((["gt", "fi", "fv", "ff", "ffv", "fs", "fsv"][kind as usize].to_string(), per.join(";")));
+        }
+        let (h, mut r) = match blk_build(&is, &fs, ns) { Ok(x) => x, Err(_) => continue };
+        // a richer site: ids, alts, quality
+        r.ids = (0..rng.range(0, 2)).map(|i| format!("r{i}{}", gen_word(rng, 1, 3))).collect();
+        r.alts = (0..rng.range(0, 2)).map(|i| ["C", "GT", "<DEL>"][i as usize % 3].to_string()).collect();
+        r.qual = if rng.chance(1, 2) { Some(gen_float(rng, false)) } else { None };
+        r.pos = rng.range(1, 100000) as usize;
+        let header = match parse_header(&header_text(&h)) { Ok(x) => x, Err(_) => continue };
+        let (stream, hlen) = match write_bcf(&header, &to_buf(&r)) { WriteRes::Ok { stream, hlen } => (stream, hlen), _ => continue };
+        let mut rec: Vec<u8> = stream[hlen..].to_vec();
+        let l_shared = u32::from_le_bytes(rec[0..4].try_into().unwrap()) as usize;
+        let nmut = rng.below(4);
+        let mut site_delta: i64 = 0;
+        let mut indiv_delta: i64 = 0;
+        for _ in 0..nmut {
+            if rec.len() <= 9 { break; }
+            let i = rng.range(8, rec.len() as u64 - 1) as usize;
+            let in_site = i < 8 + l_shared;
+            let val = match rng.below(3) {
+                0 => rng.next() as u8,
+                _ => *rng.pick(&[0x00u8, 0x01, 0x07, 0x11, 0x12, 0x17, 0x21, 0x7f, 0x80, 0x81, 0x82, 0xf1, 0xf7, 0xff, b';', b',', b'.']),
+            };
+            match rng.below(6) {
+                0 => { rec.remove(i); if in_site { site_delta -= 1 } else { indiv_delta -= 1 } }
+                1 => { rec.insert(i, val); if in_site { site_delta += 1 } else { indiv_delta += 1 } }
+                2 => { let cut = rec.len() - rng.range(1, 4).min(rec.len() as u64 - 9) as usize; indiv_delta -= (rec.len() - cut) as i64; rec.truncate(cut); }
+                _ => rec[i] = val,
+            }
+        }
+        // re-fix the two lengths (so that the mutation is seen by the field decoders) or leave them
+        if rng.chance(2, 3) {
+            let ls = (l_shared as i64 + site_delta).max(0) as u32;
+            let li = (u32::from_le_bytes(rec[4..8].try_into().unwrap()) as i64 + indiv_delta).max(0) as u32;
+            rec[0..4].copy_from_slice(&ls.to_le_bytes());
+            rec[4..8].copy_from_slice(&li.to_le_bytes());
+        }
+        let kinds = |v: &Vec<(String, String)>| if v.is_empty() { "e".to_string() } else { v.iter().map(|x| x.0.clone()).collect::<Vec<_>>().join(",") };
+        w.push("hxr", vec![kinds(&is), kinds(&fs), ns.to_string(), hex(&rec)]);
+    }
+
     // --- whole records
     let n_rec = if thorough { 40000 } else { 3000 };
     for i in 0..n_rec {
@@ -2147,10 +2351,7 @@ fn blk_specs(s: &str) -> Vec<(String, String)> {
     s.split('|').map(|t| { let (k, v) = t.split_once('~').unwrap(); (k.to_string(), v.to_string()) }).collect()
 }
 
-fn run_blk(c: &Case) -> Obs {
-    let infos = blk_specs(&c.args[0]);
-    let fmts = blk_specs(&c.args[1]);
-    let ns: usize = c.args[2].parse().unwrap();
+fn blk_build(infos: &[(String, String)], fmts: &[(String, String)], ns: usize) -> Result<(Hdr, Rec), String> {
     let mut h = Hdr { ff: (4, 4), contigs: vec![("c".into(), None)], samples: (0..ns).map(|i| format!("s{i}")).collect(), ..Hdr::default() };
     let mut r = micro_rec();
     for (j, (k, v)) in infos.iter().enumerate() {
@@ -2164,8 +2365,9 @@ fn run_blk(c: &Case) -> Obs {
             "ic" => (Num::Count(1), Ty::Char, Some(V::C(hex_char(v)))),
             "icv" => (Num::Dot, Ty::Char, Some(V::AC(parse_opt_chars(v)))),
             "isv" => (Num::Dot, Ty::Str, Some(V::AS(parse_opt_strs(v)))),
+            "ig" => (Num::Count(0), Ty::Flag, Some(V::Flag)),
             "im" => (Num::Count(1), match v.as_str() { "Integer" => Ty::Int, "Float" => Ty::Float, _ => Ty::Str }, None),
-            _ => return Obs::fail("-", "unknown-kind", k),
+            _ => return Err(k.clone()),
         };
         h.infos.push(Def { id: id.clone(), num, ty, idx: None });
         r.info.push((id, val));
@@ -2185,7 +2387,7 @@ fn run_blk(c: &Case) -> Obs {
             "fcv" => (Num::Dot, Ty::Char),
             "fs" => (Num::Count(1), Ty::Str),
             "fsv" => (Num::Dot, Ty::Str),
-            _ => return Obs::fail("-", "unknown-kind", k),
+            _ => return Err(k.clone()),
         };
         cols.push(
             per.iter()
@@ -2209,6 +2411,17 @@ fn run_blk(c: &Case) -> Obs {
     // one row per header sample (rows without values when the record has no FORMAT key: that is
     // what the reader returns for n_sample samples and n_fmt = 0)
     r.samples = (0..ns).map(|i| cols.iter().map(|col| col[i].clone()).collect()).collect();
+    Ok((h, r))
+}
+
+fn run_blk(c: &Case) -> Obs {
+    let infos = blk_specs(&c.args[0]);
+    let fmts = blk_specs(&c.args[1]);
+    let ns: usize = c.args[2].parse().unwrap();
+    let (h, r) = match blk_build(&infos, &fmts, ns) {
+        Ok(x) => x,
+        Err(k) => return Obs::fail("-", "unknown-kind", &k),
+    };
     let header = parse_header(&header_text(&h)).expect("blk header");
     let rb = to_buf(&r);
     let (wobs, robs) = match write_bcf(&header, &rb) {
@@ -2236,7 +2449,169 @@ fn run_blk(c: &Case) -> Obs {
     finish(Obs::ok(format!("{wobs} {robs}"), nontrivial), verdict)
 }
 
+// ---------------------------------------------------------------------------------------------
+// `hx`: the real decoders on arbitrary value bytes.
+
+fn run_hx(c: &Case) -> Obs {
+    let dk = c.args[0].as_str();
+    let ns: usize = c.args[1].parse().unwrap();
+    let bytes = unhex(&c.args[2]);
+    let is_info = dk.starts_with('i');
+    let (num, ty) = match dk {
+        "ii" | "fi" => ("1", "Integer"),
+        "iv" | "fv" => (".", "Integer"),
+        "if" | "ff" => ("1", "Float"),
+        "ifv" | "ffv" => (".", "Float"),
+        "is" | "fs" => ("1", "String"),
+        "isv" | "fsv" => (".", "String"),
+        "ic" | "fc" => ("1", "Character"),
+        "icv" | "fcv" => (".", "Character"),
+        "gt" => ("1", "String"),
+        _ => return Obs::fail("-", "unknown-kind", dk),
+    };
+    let h = micro_header(is_info, if dk == "gt" { "GT" } else { "X" }, num, ty, if is_info { 0 } else { ns });
+    let header = parse_header(&header_text(&h)).expect("hx header");
+    let mut w = bcf::io::Writer::from(Vec::new());
+    w.write_header(&header).expect("hx write_header");
+    let mut stream = w.into_inner();
+    // site: chrom 0, pos 0, rlen 1, qual missing, n_info, n_allele 1, n_fmt<<24|n_sample, no id, REF A, no filter
+    let mut site: Vec<u8> = Vec::new();
+    site.extend(0i32.to_le_bytes());
+    site.extend(0i32.to_le_bytes());
+    site.extend(1i32.to_le_bytes());
+    site.extend(0x7f80_0001u32.to_le_bytes());
+    site.extend((if is_info { 1u16 } else { 0 }).to_le_bytes());
+    site.extend(1u16.to_le_bytes());
+    let n_fmt: u32 = if is_info { 0 } else { 1 };
+    site.extend(((n_fmt << 24) | (if is_info { 0 } else { ns as u32 })).to_le_bytes());
+    site.extend([0x07, 0x17, 0x41, 0x00]);
+    let mut indiv: Vec<u8> = Vec::new();
+    if is_info {
+        site.extend([0x11, 0x01]);
+        site.extend(&bytes);
+    } else {
+        indiv.extend([0x11, 0x01]);
+        indiv.extend(&bytes);
+    }
+    stream.extend((site.len() as u32).to_le_bytes());
+    stream.extend((indiv.len() as u32).to_le_bytes());
+    stream.extend(&site);
+    stream.extend(&indiv);
+    let fail_as_one = matches!(dk, "ic" | "icv" | "isv" | "fc" | "fcv" | "fs" | "fsv");
+    let (robs, panicked) = match read_via_buf(&stream) {
+        Ok((_, b)) => {
+            let back = of_buf(&b);
+            let t = if is_info {
+                match back.info.first() {
+                    Some((_, v)) => canon_v(v),
+                    None => "NoField".into(),
+                }
+            } else {
+                (0..ns).map(|i| canon_v(back.samples.get(i).and_then(|s| s.first()).unwrap_or(&None))).collect::<Vec<_>>().join(";")
+            };
+            (t, None)
+        }
+        Err(e) if e.starts_with("Panic") => ((if fail_as_one { "Fail" } else { "Panic" }).to_string(), Some(e)),
+        Err(_) => ((if fail_as_one { "Fail" } else { "Err" }).to_string(), None),
+    };
+    // the property on hostile bytes: a value or an error, never a panic
+    match panicked {
+        Some(m) => Obs::ok(robs, true).with_verdict(Err((format!("bcf-decoder-panic-{dk}"), m))),
+        None => Obs::ok(robs, true),
+    }
+}
+
+// ---------------------------------------------------------------------------------------------
+// `hxr`: a whole (mutated) record through read_record_buf.
+
+fn hxr_kinds(s: &str) -> Vec<(String, String)> {
+    // only the kinds matter for the header; the values are placeholders
+    if s == "e" {
+        return vec![];
+    }
+    s.split(',').map(|k| (k.to_string(), String::new())).collect()
+}
+
+fn hxr_header(ik: &[(String, String)], fk: &[(String, String)], ns: usize) -> Hdr {
+    let mut h = Hdr { ff: (4, 4), contigs: vec![("c".into(), None)], samples: (0..ns).map(|i| format!("s{i}")).collect(), ..Hdr::default() };
+    for (j, (k, _)) in ik.iter().enumerate() {
+        let (num, ty) = match k.as_str() {
+            "ii" => (Num::Count(1), Ty::Int),
+            "iv" => (Num::Dot, Ty::Int),
+            "if" => (Num::Count(1), Ty::Float),
+            "ifv" => (Num::Dot, Ty::Float),
+            "is" => (Num::Count(1), Ty::Str),
+            "isv" => (Num::Dot, Ty::Str),
+            _ => (Num::Count(0), Ty::Flag),
+        };
+        h.infos.push(Def { id: format!("X{j}"), num, ty, idx: None });
+    }
+    for (j, (k, _)) in fk.iter().enumerate() {
+        let (id, num, ty) = match k.as_str() {
+            "gt" => ("GT".to_string(), Num::Count(1), Ty::Str),
+            "fi" => (format!("Y{j}"), Num::Count(1), Ty::Int),
+            "fv" => (format!("Y{j}"), Num::Dot, Ty::Int),
+            "ff" => (format!("Y{j}"), Num::Count(1), Ty::Float),
+            "ffv" => (format!("Y{j}"), Num::Dot, Ty::Float),
+            "fs" => (format!("Y{j}"), Num::Count(1), Ty::Str),
+            _ => (format!("Y{j}"), Num::Dot, Ty::Str),
+        };
+        h.formats.push(Def { id, num, ty, idx: None });
+    }
+    h
+}
+
+fn run_hxr(c: &Case) -> Obs {
+    let ik = hxr_kinds(&c.args[0]);
+    let fk = hxr_kinds(&c.args[1]);
+    let ns: usize = c.args[2].parse().unwrap();
+    let rec = unhex(&c.args[3]);
+    let header = parse_header(&header_text(&hxr_header(&ik, &fk, ns))).expect("hxr header");
+    let mut w = bcf::io::Writer::from(Vec::new());
+    w.write_header(&header).expect("hxr write_header");
+    let mut stream = w.into_inner();
+    stream.extend(&rec);
+    let out = guarded(AssertUnwindSafe(|| -> std::io::Result<Option<RecordBuf>> {
+        let mut r = bcf::io::Reader::from(&stream[..]);
+        let h = r.read_header()?;
+        let mut rb = RecordBuf::default();
+        Ok(if r.read_record_buf(&h, &mut rb)? == 0 { None } else { Some(rb) })
+    }));
+    match out {
+        Outcome::Panicked(m) => Obs::ok("Panic", true).with_verdict(Err(("bcf-record-decoder-panic".to_string(), m))),
+        Outcome::Done(Err(_)) | Outcome::Done(Ok(None)) => Obs::ok("Fail", true),
+        Outcome::Done(Ok(Some(b))) => {
+            let x = of_buf(&b);
+            let hx = |v: &Vec<String>, sep: &str| v.iter().map(|s| hex(s.as_bytes())).collect::<Vec<_>>().join(sep);
+            let info: Vec<String> = x.info.iter().map(|(k, v)| format!("{k}={}", canon_v(v))).collect();
+            let rows: Vec<String> = x.samples.iter().map(|r| r.iter().map(canon_v).collect::<Vec<_>>().join(":")).collect();
+            Obs::ok(
+                format!(
+                    "{}|{}|{}|{}|{}|{}|{}||{}||{}||{}",
+                    x.chrom,
+                    if b.variant_start().is_none() { ".".to_string() } else { x.pos.to_string() },
+                    opt(&x.qual, |q| format!("{q:08x}")),
+                    hx(&x.ids, ";"),
+                    hex(x.refb.as_bytes()),
+                    hx(&x.alts, ","),
+                    x.filters.join(";"),
+                    info.join("|"),
+                    x.keys.join(","),
+                    rows.join(";")
+                ),
+                true,
+            )
+        }
+    }
+}
+
 fn run(c: &Case) -> Obs {
+    if c.kind == "hxr" {
+        return run_hxr(c);
+    }
+    if c.kind == "hx" {
+        return run_hx(c);
+    }
     if c.kind == "blk" {
         return run_blk(c);
     }
